@@ -17,12 +17,24 @@ CLAIMS = {
    text="Proof, for every key and every shard count n>=1 (symbolic), that each key-addressed FanoutCache method makes exactly one call, on shard hash(key) % n, to the same-named Cache method with arguments matched by Cache's real parameter names, and maps result/Timeout as documented; aggregate methods cover every shard exactly once (loop invariants over a symbolic-length shard tuple; totals include counts carried by Timeout); Disk.hash equals the released routing function, is a pure function of the key, and respects key equality except for the two recorded findings (int/float, signed zero) whose residuals are proved.",
    note=TRUST + "Cache methods are represented by recorders with the outcome lists in contracts/fanout_common.py (assumed callee contracts); adler32 is uninterpreted (replays confirm refutations). Per-shard behaviour equal to an unsharded cache is the composition with C03 (not re-proved here).",
    tech="contract-based deductive verification: symbolic execution of FanoutCache/Disk.hash bodies, delegate obligations, inductive loop invariants, z3"),
+ 'C16': dict(
+   text="Proof that core.args_to_key, executed from /repo for argument tuples and keyword dictionaries of any size (symbolic z3 sequences, inductive loop invariant over the sorted items), returns base ++ args ++ [None] ++ flattened sorted items (++ types when typed); from that structure z3 plus the Lean-checked lemma flat_inj prove that calls with different arguments get different keys (different function names, no keywords, equal positional arity, positional vs keyword), and that the typed key extends the untyped one. The memoize wrappers of Cache, DjangoCache and memoize_stampede (incl. its early recomputation thread) are executed against recorder cache/function objects: lookup with ENOVAL default, exactly one call with the caller's arguments on a miss, result returned, stored iff the expiry allows, nothing called on a hit; Index.memoize delegates; FanoutCache.memoize is Cache.memoize. The positional-None/separator collision is a recorded finding with a proved residual.",
+   note=TRUST + "The wrapped function is deterministic (requires); key identity is type-and-structure (A-PICKLE-canon); keyword names are text; ignore sets other than () are covered only by a bounded enumeration (arity <= 3), listed under coverage.bounded and not counted as proved. The Lean lemma is checked by setup_cmd; without it the obligation using it is reported undecided.",
+   tech="contract-based deductive verification: symbolic execution with loop invariant over z3 sequences, Lean 4 lemma as axiom, delegate obligations against recorders"),
+ 'C19': dict(
+   text="Proof at the routing level for every DjangoCache method: the body, executed from /repo against a recorder standing for the real FanoutCache signature, applies make_key(key, version) exactly once, converts the timeout by get_backend_timeout (DEFAULT -> backend default, 0 -> negative, None -> None, any other number unchanged; for all reals), passes every other argument to the same-named FanoutCache parameter, returns the backend's result, turns KeyError from incr into ValueError, decr negates delta, and the documented retry defaults hold.",
+   note=TRUST + "Return values of the underlying operations are the composition with C13/C03/C04 (a negative ttl is expired at every later reading); Django's BaseCache (make_key, get_many, set_many, delete_many, get_or_set, incr_version) is dependency code and assumed; floats as reals.",
+   tech="contract-based deductive verification: delegate obligations over symbolically executed method bodies, z3 for the timeout mapping"),
+ 'C20': dict(
+   text="Proof of the step obligations of the token bucket over the reals for all counts, rates, stored states within the invariant and clock readings: one arbitrary iteration of the throttle loop (loop contract), executed from /repo, either lets the call through with at least one token available and stores exactly one token less at the current time, or stores nothing and sleeps exactly the positive time until one token is available; the stored tally stays in [0, count]; reads and writes of a step lie inside one transaction block; the decorator initialises (now, count). Averager.add is get+set of (total+v, count+1) inside one block; get/pop return total/count or None.",
+   note=TRUST + "Floats are treated as mathematical reals; the window bound follows from the step obligations by telescoping (paper argument); atomicity of a block is A-SQL-iso (C06); liveness ('every call is eventually let through') is not decided.",
+   tech="contract-based deductive verification: loop contract for the throttle loop, nonlinear real arithmetic in z3, trace obligations for the atomic section"),
 }
 ORDER = ['C%02d' % i for i in range(1, 21)]
 NOT_YET = "not reached yet (build in progress)"
 m = {
  "version": 1,
- "setup_cmd": "python3-vt -m compileall -q pyvc contracts >/dev/null && python3-vt bin/selfcheck.py",
+ "setup_cmd": "python3-vt -m compileall -q pyvc contracts >/dev/null && bin/check_lemmas.sh && python3-vt bin/selfcheck.py",
  "hooks": {"guard": "DISKCACHE_VERIF",
            "enable": "no source hooks: /repo is parsed with ast on every run and, for replays and stand-ins, imported unmodified under /venv/bin/python",
            "baseline_off_cmd": "cd /repo && /venv/bin/python -m pytest -q -p no:cacheprovider --timeout=900",
